@@ -40,6 +40,10 @@ var boundedRunners = map[string]boundedSpec{
 		Quick: map[string]string{"VERIF_BOUND_BATCHES": "60"}, Thorough: map[string]string{"VERIF_BOUND_BATCHES": "1500"}},
 	"c19_prefixrange": {File: "c19_prefixrange_test.go", PkgDir: "store", Test: "TestVerifBoundedC19Prefix",
 		Quick: map[string]string{}, Thorough: map[string]string{}},
+	"c05_cache": {File: "c05_batch_test.go", PkgDir: "lib/crypto", Test: "TestVerifBoundedC05Cache",
+		Quick: map[string]string{}, Thorough: map[string]string{}},
+	"c06_index": {File: "c06_index_test.go", PkgDir: "store", Test: "TestVerifBoundedC06Index",
+		Quick: map[string]string{}, Thorough: map[string]string{}},
 	"c07_clone": {File: "c07_clone_test.go", PkgDir: "fsm", Test: "TestVerifBoundedC07",
 		Quick: map[string]string{"VERIF_BOUND_TRACKERS": "200"}, Thorough: map[string]string{"VERIF_BOUND_TRACKERS": "20000"}},
 	"c10_history": {File: "c10_iter_test.go", PkgDir: "store", Test: "TestVerifBoundedC10History",
